@@ -4,3 +4,4 @@ import Proofs.EqHash
 import Proofs.SetBuild
 import Proofs.NumLemmas
 import Proofs.EParseTotal
+import Proofs.EParseWF
